@@ -19,6 +19,7 @@ mod c13;
 mod c14;
 mod c17;
 mod common;
+mod damage;
 mod e3;
 mod fmt06;
 mod hist;
@@ -54,6 +55,12 @@ fn main() {
     }
     run::install_quiet_panic_hook();
     let _ = util::watch();
+    if args[1] == "debug-damage" {
+        let text = std::fs::read_to_string(&args[2]).expect("read replay file");
+        let v: serde_json::Value = serde_json::from_str(&text).expect("parse replay file");
+        damage::debug(&v["case"]);
+        return;
+    }
     if args[1] == "replay" {
         let text = std::fs::read_to_string(&args[2]).expect("read replay file");
         let v: serde_json::Value = serde_json::from_str(&text).expect("parse replay file");
@@ -66,6 +73,7 @@ fn main() {
             "c08" => c08::replay(case),
             "c01" => c01::replay(case),
             "c12" => c12::replay(case),
+            "damage" => damage::replay(case),
             "c16" | "c16-stitched" => c16::replay(case),
             "c18" => c18::replay(case),
             "c15" => c15::replay(case),
@@ -81,6 +89,7 @@ fn main() {
             "hist" => match case["rider"].as_str().unwrap_or("") {
                 "C02" => c02::replay(case),
                 "C07" => c07::replay_hist(case),
+                "C09" => damage::replay_hist(case),
                 "C13" => c13::replay_hist(case),
                 "C14" => c14::replay_hist(case),
                 "C17" => c17::replay(case),
@@ -135,6 +144,8 @@ fn main() {
         "C06" => c06::run(&report, &budget),
         "C07" => c07::run(&report, &budget),
         "C08" => c08::run(&report, &budget),
+        "C09" => damage::run_c09(&report, &budget),
+        "C10" => damage::run_c10(&report, &budget),
         "C11" => c11::run(&report, &budget),
         "C12" => c12::run(&report, &budget),
         "C13" => c13::run(&report, &budget),
